@@ -1,4 +1,5 @@
 import networkx as nx
+import numpy as np
 import flowpaths.utils as utils
 from typing import Optional
 
@@ -82,6 +83,14 @@ class AbstractSourceSinkGraph(nx.DiGraph):
         # Add base nodes/edges
         self.add_nodes_from(self.base_graph.nodes(data=True))
         self.add_edges_from(self.base_graph.edges(data=True))
+
+        # Attribute values given as numpy scalars (what a graph built from an array or a data frame carries) do not behave like
+        # Python numbers in the models' arithmetic (unsigned integers wrap around, solver expressions cannot be compared or
+        # multiplied with them): this internal copy stores plain Python numbers
+        for attributes in [data for _, data in self.nodes(data=True)] + [data for _, _, data in self.edges(data=True)]:
+            for key, value in attributes.items():
+                if isinstance(value, np.generic):
+                    attributes[key] = value.item()
 
         # The global source & sink always exist as nodes (also when nothing gets attached to them, so that
         # subclasses can detect and reject a graph without sources or sinks)
